@@ -852,8 +852,9 @@ def decompose_matrix(matrix):
         np.negative(scale, scale)
         np.negative(row, row)
 
-    angles[1] = np.arcsin(-row[0, 2])
-    if np.cos(angles[1]):
+    cy = np.sqrt(row[0, 0] * row[0, 0] + row[0, 1] * row[0, 1])
+    angles[1] = np.arctan2(-row[0, 2], cy)
+    if cy > _EPS:
         angles[0] = np.arctan2(row[1, 2], row[2, 2])
         angles[2] = np.arctan2(row[0, 1], row[0, 0])
     else:
